@@ -97,6 +97,7 @@ def strategy_outcomes(prog, run, ex, kind, _depth=0):
 
 
 def check(prog, run):
+    check_guarded_flatten(prog, run, "S10")   # = C08.R13 / C10.K9, every guarded map_value
     check_completion_never_raises_field_error(prog, run, "S9")
     # ---- S1 strategy selection
     r = run.rule("S1", "execute() binds the serial strategy exactly for mutations, the parallel one for queries, refuses every "
@@ -385,17 +386,44 @@ def check_guarded_flatten(prog, run, rule_id):
     cn = Canon(f.node)
     guarded = [n for n in own_nodes(f.node) if isinstance(n, ast.Call) and cn.func_text(n).endswith(".map_value")
                and any(k.arg == "else_" for k in n.keywords)]
-    if len(guarded) != 1:
-        raise AnalysisError("%s: expected one else_-guarded map_value in Executor.resolve_field, found %d" % (rule_id, len(guarded)))
-    arg = cn.expr(guarded[0].args[0]) if guarded[0].args else None
-    flattened = arg is not None and attr_call(arg, "unwrap_value") and any(
-        " ".join(ast.unparse(x.func).split()).startswith("self.field_resolver(") for x in calls(arg))
-    r.instance("guarded map_value receives `%s`" % (" ".join(ast.unparse(arg).split())[:70] if arg is not None else None))
-    if not flattened:
-        run.report(r, "%s:Executor.resolve_field:guard-sees-unflattened-result" % EXE, f.where(guarded[0]),
-                   "the else_-guarded map_value receives `%s`, not runtime.unwrap_value(resolver(...)): only the first level of a nested "
-                   "awaitable/future is awaited under the guard, so a ResolverError from an inner level is raised out of the request"
-                   % (" ".join(ast.unparse(arg).split())[:70] if arg is not None else None))
+    if not guarded:
+        raise AnalysisError("%s: no else_-guarded map_value in Executor.resolve_field" % rule_id)
+    # every guarded map_value (a fast path adds a second one), each on the path value of its first argument
+    from .. import boolx as _bxg
+    try:
+        _evg, gexits = _bxg.walk_under(f.node, lambda t: None)
+    except ValueError as e:
+        raise AnalysisError("%s: %s" % (rule_id, e))
+    seen_calls = {}
+    for kind, st, env in gexits:
+        for c in env.get(_bxg.CALLS, ()):
+            if any(c is g for g in guarded) and id(c) not in seen_calls:
+                holder = c
+                while holder is not None and not isinstance(holder, ast.stmt):
+                    holder = getattr(holder, "_parent", None)
+                seen_calls[id(c)] = (c, _bxg.path_subst(c.args[0], _bxg.path_env(env.get(_bxg.STMTS, ()), holder)) if c.args else None)
+    for g in guarded:
+        c, arg = seen_calls.get(id(g), (g, cn.expr(g.args[0]) if g.args else None))
+        flattened = arg is not None and attr_call(arg, "unwrap_value") and any(
+            " ".join(ast.unparse(x.func).split()).startswith("self.field_resolver(") or isinstance(x.func, ast.Name) for x in calls(arg) if x is not arg)
+        # the value the field hands back is flattened as well: the guarded call sits inside a runtime.unwrap_value(...)
+        par = getattr(g, "_parent", None)
+        outer = isinstance(par, ast.Call) and attr_call(par, "unwrap_value")
+        if not outer and isinstance(par, (ast.Assign, ast.Return)):
+            outer = False if isinstance(par, ast.Return) else any(
+                isinstance(x, ast.Call) and attr_call(x, "unwrap_value") and x.args and isinstance(x.args[0], ast.Name)
+                and isinstance(par.targets[0], ast.Name) and x.args[0].id == par.targets[0].id for x in own_nodes(f.node))
+        r.instance("guarded map_value receives `%s`; its result is flattened: %s" % (" ".join(ast.unparse(arg).split())[:70] if arg is not None else None, outer))
+        if not flattened:
+            run.report(r, "%s:Executor.resolve_field:guard-sees-unflattened-result" % EXE, f.where(g),
+                       "the else_-guarded map_value receives `%s`, not runtime.unwrap_value(resolver(...)): only the first level of a nested "
+                       "awaitable/future is awaited under the guard, so a ResolverError from an inner level is raised out of the request"
+                       % (" ".join(ast.unparse(arg).split())[:70] if arg is not None else None))
+        elif not outer:
+            run.report(r, "%s:Executor.resolve_field:result-not-flattened" % EXE, f.where(g),
+                       "a guarded map_value result leaves resolve_field without runtime.unwrap_value around it: when the completed value is "
+                       "itself deferred the field's wrapper settles before its sub-selection has - the serial chain starts the next "
+                       "top-level field early and gather_values receives an unawaited inner value")
 
 
 def check_completion_never_raises_field_error(prog, run, rule_id):
